@@ -227,12 +227,12 @@ Proof.
   assert (Hnd : NoDup (k :: flat_map tk_of all)) by (constructor; assumption).
   assert (Hm : forall b, matched b -> Forall matched (b :: all)) by (intros b Hb; constructor; assumption).
   destruct c; try discriminate E; cbn [prepare_cmd] in E.
-  - inversion E; subst. split; [apply TInv0_add_default; exact HT|]. auto.
+  - inversion E; subst. split; [apply TInv0_add_default; eapply TInv0_kview; [|exact HT]; reflexivity|]. split; [exact HF|]. repeat split; reflexivity.
   - unfold fresh_ticket in E. inversion E; subst. clear E. split; [|split; [exact HF|auto]].
     constructor; [|exact T2|exact T3|exact T4|exact Hnd|exact Hbd|apply Hm; exact I].
     unfold note_prep; cbn [tr_se set]. rewrite keys_prepare. apply perm_snoc_cons. exact T1.
   - destruct r; unfold fresh_ticket in E; inversion E; subst; clear E.
-    + split; [apply TInv0_add_default; exact HT|]. auto.
+    + split; [apply TInv0_add_default; eapply TInv0_kview; [|exact HT]; reflexivity|]. split; [exact HF|]. repeat split; reflexivity.
     + split; [|split; [exact HF|auto]]. constructor; [exact T1| |exact T3|exact T4|exact Hnd|exact Hbd|apply Hm; exact I].
       unfold note_prep; cbn [tr_er set]. rewrite keys_prepare. apply perm_snoc_cons. exact T2.
     + split; [|split; [exact HF|auto]]. constructor; [exact T1|exact T2| |exact T4|exact Hnd|exact Hbd|apply Hm; exact I].
@@ -487,13 +487,13 @@ Proof. intros H. apply in_app_or in H. destruct H as [H|[H|[]]]; auto. Qed.
 Lemma G_prepare c all w t su cl w1 : prepare_cmd c w = Some (t, su, cl, w1) -> GInv all w -> GInv (mkBuf t su cl :: all) w1.
 Proof.
   intros E HG. destruct c; try discriminate E; cbn [prepare_cmd] in E.
-  - inversion E; subst. apply GInv_add_default. exact HG.
+  - inversion E; subst. apply GInv_add_default. eapply GInv_kview; [|exact HG]. reflexivity.
   - unfold fresh_ticket in E. inversion E; subst. clear E.
     eapply (GInv_park (ticket_ctr w + 1) t [PiSe d] _ _ all w); try reflexivity; try (intros; left; assumption); [| |exact HG].
     + intros k' s d0 Hin. unfold note_prep, trk_prepare in Hin. cbn [tr_se set prepared] in Hin. apply in_snoc_inv in Hin. destruct Hin as [H|H]; [left; exact H|right]. inversion H; subst. auto using in_eq.
     + unfold shape_ok. cbn [b_setup b_sys]. exists d. unfold note_prep. cbn [g_prep set]. apply in_or_app. right. left. reflexivity.
   - destruct r; unfold fresh_ticket in E; inversion E; subst; clear E.
-    + apply GInv_add_default. exact HG.
+    + apply GInv_add_default. eapply GInv_kview; [|exact HG]. reflexivity.
     + eapply (GInv_park (ticket_ctr w + 1) t [PiEr src rt] _ _ all w); try reflexivity; try (intros; left; assumption); [| |exact HG].
       * intros k' s x src0 rt0 Hin. unfold note_prep, trk_prepare in Hin. cbn [tr_er set prepared] in Hin. apply in_snoc_inv in Hin. destruct Hin as [H|H]; [left; exact H|right]. inversion H; subst. auto using in_eq.
       * unfold shape_ok. cbn [b_setup b_sys]. exists src, rt. unfold note_prep. cbn [g_prep set]. apply in_or_app. right. left. reflexivity.
